@@ -5,16 +5,29 @@ import OpfVerif.Model.Forest
 import OpfVerif.Model.ForestSpec
 import OpfVerif.Model.CompeteSpec
 import OpfVerif.Model.PrimSpec
+import OpfVerif.Model.Lawful
+import OpfVerif.Model.ExecSpec
 import OpfVerif.Model.Expr
+import OpfVerif.Model.Knn
+import OpfVerif.Model.KnnSpec
 -- translator output
 import OpfVerif.Gen.Distance
 import OpfVerif.Gen.Registry
 import OpfVerif.Gen.Decorator
+import OpfVerif.Gen.Effects
+import OpfVerif.Gen.Fingerprint
 -- property theorems
 import OpfVerif.Props.C01
+import OpfVerif.Props.C01Exec
 import OpfVerif.Props.C02
+import OpfVerif.Props.C02Exec
 import OpfVerif.Props.C03
 import OpfVerif.Props.C05
-import OpfVerif.Model.Lawful
-import OpfVerif.Model.ExecSpec
-import OpfVerif.Lemmas.Lawful
+import OpfVerif.Props.C06
+import OpfVerif.Props.C06b
+import OpfVerif.Props.C07
+import OpfVerif.Props.C08
+import OpfVerif.Props.C08Symm
+import OpfVerif.Props.C08Self
+import OpfVerif.Props.C08Metric
+import OpfVerif.Props.C08Nonneg
